@@ -1,3 +1,4 @@
+\* devAttachNoEdge2
 SPECIFICATION Spec
 CONSTANTS
   Cand <- Cand3
@@ -16,7 +17,4 @@ INVARIANT Inv_W2
 INVARIANT Inv_W3
 INVARIANT Inv_W4
 INVARIANT Inv_Verdict
-INVARIANT Inv_LoopGraph
-INVARIANT Inv_ClosureAgrees
-PROPERTY Terminates
 CHECK_DEADLOCK FALSE
